@@ -34,7 +34,7 @@ def tlv_items_of(line):
 
 class C02(Prop):
     id = "C02"
-    required = ["C02.accept_iff", "C02.accept_iff_table"]
+    required = ["C02.accept_iff", "C02.accept_iff_table", "C02.decomposition_unique"]
     rule = ("all 65 536 control-byte pairs x length/presence relations, signature corruptions, random accepted headers; "
             "non-trivial = distinct (control pair, declared-length vs family-size relation, bytes-present vs needed relation)")
     exhaustive = True
@@ -84,7 +84,7 @@ class C02(Prop):
 
 class C11(Prop):
     id = "C11"
-    required = ["C11.collect_eq_walk", "C11.tiling", "C11.error_last", "C11.fuel_irrelevant"]
+    required = ["C11.collect_eq_walk", "C11.tiling", "C11.error_last", "C11.fuel_irrelevant", "C11.step_none_stable", "C11.next_ok_at", "C11.header_tlvs_unspec"]
     rule = ("every string over {0,1,2,3,255} up to length 8 (quick) / 10 (thorough), well-formed sections with every truncation, "
             "sections of accepted headers; non-trivial = distinct sections with >= 2 items or an error item")
 
@@ -164,7 +164,7 @@ class C11(Prop):
 
 class C14(Prop):
     id = "C14"
-    required = ["C14.views_partition", "C14.lengths", "C14.family", "C14.addresses_decode"]
+    required = ["C14.views_partition", "C14.lengths", "C14.family", "C14.addresses_decode", "C14.split_point", "C14.helpers", "C14.nibbles"]
     rule = ("view fields of every accepted header from the control-space and valid-header generators; "
             "non-trivial = distinct (family, transport, payload length class, TLV section length class)")
 
@@ -234,7 +234,7 @@ class C14(Prop):
 
 class C17(Prop):
     id = "C17"
-    required = ["C17.incomplete_exact", "C17.partial_exact", "C17.partial_completion", "C17.partial_progress"]
+    required = ["C17.incomplete_exact", "C17.partial_exact", "C17.partial_completion", "C17.partial_progress", "C17.truncated_exact", "C17.partial_iff", "C17.incomplete_iff"]
     rule = ("every cut of generated headers, all valid control pairs x declared lengths, completion with random bytes; "
             "non-trivial = distinct (control pair, have, need) triples of incomplete results")
 
